@@ -204,7 +204,7 @@ class NodeAssignDestructuring:
         if values.isList():
             values = values.value
         elif values.isSet():
-            values = values.value.sortedValues()
+            values = values.getSortedItems()
         else:
             raise CklRuntimeError(
                 ValueString("ERROR"),
@@ -829,7 +829,7 @@ class NodeFor:
                         if value.isList():
                             vals = value.value
                         elif value.isSet():
-                            vals = value.value.sortedValues()
+                            vals = value.getSortedItems()
                         for i in range(len(self.identifiers)):
                             environment.put(self.identifiers[i], vals[i])
 
@@ -935,7 +935,7 @@ class NodeFor:
                     if val.isList():
                         vals = val.value
                     elif val.isSet():
-                        vals = val.value.sortedValues()
+                        vals = val.getSortedItems()
                     for i in range(len(self.identifiers)):
                         environment.put(self.identifiers[i], vals[i])
                 result = self.block.evaluate(environment)
@@ -974,7 +974,7 @@ class NodeFor:
                     if val.isList():
                         vals = val.value
                     elif val.isSet():
-                        vals = val.value.sortedValues()
+                        vals = val.getSortedItems()
                     for i in range(len(self.identifiers)):
                         environment.put(self.identifiers[i], vals[i])
                 result = self.block.evaluate(environment)
